@@ -55,6 +55,15 @@ def complete_midstep(p0: int, p1: int, p2: int, p3: int, c: int, t: int) -> bool
     q = _prestate(m, n, [p0, p1, p2, p3], t)
     m.systems.timestep = t
     hx.pick(q, c).completes = True
+    if hx.P.get('foreign'):
+        # the systems after the completer were constructed for ANOTHER model that keeps running (e.g. one stateless
+        # system object shared by two models); what counts is the model whose scheduler runs them
+        other = LogModel()
+        other.log = m.log
+        hx.pick(q, c).model = m
+        for i, s_ in enumerate(q):
+            if i > c:
+                s_.model = other
     if not m.is_running() or not bool(m):
         return hx.end(hx.fail("fresh model not running"))
     m.execute()
@@ -264,8 +273,8 @@ def obligations(tier):
     ns = (1, 2, 3) if tier == "quick" else (1, 2, 3, 4)
     N = 3 if tier == "quick" else 5
     return [
-        X("complete_midstep", complete_midstep, parts=[{"n": n} for n in ns], labels=("skipped_rest",),
-          labels_for=lambda p: ("skipped_rest",) if p["n"] > 1 else (), timeout=300, encoded=enc,
+        X("complete_midstep", complete_midstep, parts=[{"n": n} for n in ns] + [{"n": 2, "foreign": True}, {"n": 3, "foreign": True}],
+          labels=("skipped_rest",), labels_for=lambda p: ("skipped_rest",) if p["n"] > 1 else (), timeout=300, encoded=enc,
           bounds={"n": "1..%d" % ns[-1]}),
         X("complete_during_multistep", complete_during_multistep,
           parts=[{"n": n, "k": k} for n, k in (((1, 2), (2, 3), (3, 2)) if tier == "quick" else ((1, 2), (2, 3), (3, 2), (3, 4), (2, 5)))],
